@@ -13,10 +13,9 @@ import (
 
 	"github.com/piotrnar/gocoin/lib/btc"
 	"github.com/piotrnar/gocoin/lib/utxo"
-	"verif/vlib"
 )
 
-func keyClashProbe(r *vlib.Run) {
+func keyClashProbe(r *Run) {
 	dir, err := os.MkdirTemp("", "vc04k")
 	if err != nil {
 		return
